@@ -507,7 +507,7 @@ func genDfrag(emit func(string), tier string, rng *Rng) {
 	thorough := tier == "thorough"
 	n, maxLen := 400, 6000
 	if thorough {
-		n, maxLen = 1000, 30000
+		n, maxLen = 800, 30000
 	}
 	pool, kinds := fragInputs(rng, n, maxLen)
 	for i, b := range pool {
@@ -548,7 +548,7 @@ func genDfrag(emit func(string), tier string, rng *Rng) {
 			count("sched:failing")
 		}
 		// enumeration for small streams: every split point as a 2-chunk schedule, smallest buffer
-		if (thorough && L <= 1500 && kinds[i] != "random-body") || (!thorough && L <= 250 && i%3 == 0) {
+		if (thorough && L <= 1200 && kinds[i] != "random-body") || (!thorough && L <= 250 && i%3 == 0) {
 			// exhaustive: all split points × end-of-stream styles + failure at every offset, as one digest operation
 			emit(fragOp("dfragx", chk, []string{"", "765", "0", "1000"}[rng.Intn(4)], b, "-"))
 			count("enum:exhaustive-sweep")
